@@ -109,10 +109,20 @@ Definition tf_step (template filename found : str) (ignored guessed direct : opt
     let fname := if truthy_opt ignored then fname ++ opt_str ignored else fname in
     dict_set d name fname.
 
+(* parse_filename starts with _stringify_path(filename) again; on the stringified template that
+   just lost its final dot pathlib changes exactly: '' -> '.', 'x/.' -> 'x', '/.' -> '/' *)
+Definition restringify (s : str) : str :=
+  match s with
+  | [] => [DOT]
+  | _ => if endswith s [SLASH; DOT]
+         then match butlastn 2 s with [] => [SLASH] | t => t end
+         else s
+  end.
+
 Definition types_filenames (enforce mc : bool) (tys : list (str * str)) (sufs : list str)
   (template : str) : res dict :=
   let template := removesuffix_dot template in
-  let '(filename, found, ignored, guessed) := parse_filename mc tys sufs template in
+  let '(filename, found, ignored, guessed) := parse_filename mc tys sufs (restringify template) in
   if enforce && is_none guessed && nonempty found then Err ErrWrongExt
   else if enforce && is_none guessed && truthy_opt ignored then Err ErrConfusing
   else
